@@ -7,7 +7,7 @@
    byte; END_STREAM; header block with its field list; PUSH_PROMISE; PRIORITY;
    RST_STREAM), so framing (fragmentation, padding, splitting) is factored out. *)
 From Coq Require Import List NArith ZArith Bool Ascii.
-From Martian.H2 Require Import Model Spec Proofs_flow Proofs_oracle Proofs_c08 Proofs_misc Proofs_final Proofs_prio.
+From Martian.H2 Require Import Model Spec Proofs_flow Proofs_oracle Proofs_c08 Proofs_misc Proofs_table Proofs_final Proofs_prio.
 Import ListNotations.
 
 (* per stream, in order: delivered ++ still held by the receiver's windows = sent *)
@@ -52,6 +52,15 @@ Theorem C08_header_blocks_in_encode_order : forall ls x,
   block_seqs x (concat (obs_of ls)) = seq 0 (length (block_seqs x (concat (obs_of ls)))).
 Proof. exact final_block_order. Qed.
 Print Assumptions C08_header_blocks_in_encode_order.
+
+(* "decodes under ITS OWN HPACK state": every header block written to x was
+   encoded with a dynamic table no larger than x allows: the HEADER_TABLE_SIZE
+   in force (acknowledged) or announced by x and not yet acknowledged.  [tab]
+   of a block is the table size of the relay's encoder toward x, as signalled
+   in-band by dynamic table size updates. *)
+Theorem C08_header_table_size_respected : forall ls, P_table ls (obs_of ls).
+Proof. exact final_table. Qed.
+Print Assumptions C08_header_table_size_respected.
 
 Theorem C08_preface_any_segmentation : forall preface chunks rest,
   concat chunks = preface ++ rest ->
